@@ -41,6 +41,7 @@ type Step struct {
 	Blocks  int      `json:"blocks,omitempty"` // lag: replica stops receiving for this many blocks (partition), then catches up in a burst
 	Cfg     *NodeCfg `json:"cfg,omitempty"`    // reconfig: restart with this configuration
 	NoInfo  bool     `json:"no_info,omitempty"` // upgrade: restart without upgrade-info.json
+	Ahead    int     `json:"ahead,omitempty"` // planahead: the plan is due this many blocks after the next one
 	PlanName string  `json:"plan_name,omitempty"` // upgrade: plan name (default v2.2.1); another name is a plan this binary has no handler for (only meaningful when its height is skipped)
 	HQ      *HQuery  `json:"hq,omitempty"`      // hquery: a hostile query issued against every live replica
 	// simulate: the transaction is only simulated (never broadcast) on one replica (0 = the reference replica)
